@@ -50,6 +50,24 @@ def ids_of(md):
     return {(e.get('stream_id'), e['name']): e['id'] for e in md['events']}
 
 
+def many_clocks_config(rnd):
+    import yaml
+    nclk = rnd.choice([3, 4, 5])
+    cnames = rnd.sample(['cycles', 'wall', 'rtc', 'mono', 'tsc', 'Zclk', 'a_clk'], nclk)
+    tt = {'native-byte-order': 'le', 'clock-types': {}, 'data-stream-types': {}}
+    for cn in cnames:
+        tt['clock-types'][cn] = {'$c-type': rnd.choice(['uint8_t', 'uint16_t', 'uint32_t', 'uint64_t']),
+                                 'frequency': rnd.choice([1000, 1000000])}
+    dnames = rnd.sample(['fast', 'slow', 'lowpower', 'Alpha', 'b2', '_z', 'mid'], nclk)
+    for dn, cn in zip(dnames, cnames):
+        erts = {}
+        for en in rnd.sample(['tick', 'note', 'wake', 'Zed', 'a', 'ev_9'], rnd.choice([2, 3])):
+            erts[en] = {'payload-field-type': {'class': 'struct', 'members': [{'v': {'field-type': {'class': 'uint', 'size': 32}}}]}}
+        tt['data-stream-types'][dn] = {'$default-clock-type-name': cn, 'event-record-types': erts}
+    cfg = {'trace': {'type': tt, 'environment': {'zz': 1, 'aa': 'x', 'mm': 2}}}
+    return gencfg.HEADER + yaml.safe_dump(cfg, sort_keys=False, default_flow_style=False)
+
+
 def run(c):
     ss, changed = itersites.regenerate()
     ob = c.proof_obligations()
@@ -71,6 +89,14 @@ def run(c):
         if sum(len(d.event_record_types) for d in cfg.trace.type.data_stream_types) < 4:
             continue
         configs.append((text, cfg))
+    # a family in which every mapping of the configuration is large and every data stream type has its own default
+    # clock type with a C type (clock callbacks, clock declarations, per-stream code all depend on iteration order)
+    for k in range(2 if c.tier == 'quick' else 6):
+        text = many_clocks_config(rnd)
+        try:
+            configs.append((text, common.load_cfg(text)))
+        except Exception as ex:  # noqa
+            c.inconclusive.append(f'many-clocks configuration rejected: {ex}')
     jobs = []
     for ci, (text, cfg) in enumerate(configs):
         variants = [text] + [permuted(text, rnd) for _ in range(nperm)]
